@@ -45,7 +45,7 @@ def parse(path):
     return st
 
 def run(pid, scen, seed, tier, stats, failing, broken, sh, CACHE, TARGET, infra, diff_with_model):
-    name, quick_n, thorough_n = scen
+    name, quick_n, thorough_n = scen[0], scen[1], scen[2]
     n = thorough_n if tier == 'thorough' else quick_n
     rundir = os.path.join(CACHE, 'run')
     os.makedirs(rundir, exist_ok=True)
@@ -54,6 +54,18 @@ def run(pid, scen, seed, tier, stats, failing, broken, sh, CACHE, TARGET, infra,
     if rc != 0:
         infra(f'sim {name} failed rc={rc}:\n{out[-2000:]}')
     st = parse(prefix + '.stats')
+    # corpus: seeds of past findings run first/always (raw seeds), so listed findings are re-observed
+    corpus = scen[3] if len(scen) > 3 else []
+    for cs in corpus:
+        cp = prefix + f'-corpus{cs}'
+        env_prefix = ['env', 'VERIF_SIM_RAWSEED=1']
+        rc, out = sh(env_prefix + [os.path.join(TARGET, 'debug', 'sim'), name, str(cs), '1', cp], timeout=1200)
+        if rc != 0:
+            infra(f'sim {name} corpus seed {cs} failed rc={rc}:\n{out[-2000:]}')
+        cst = parse(cp + '.stats')
+        st['oracle_fail'] += cst['oracle_fail']
+        st['cases'] = str(int(st.get('cases', 0)) + int(cst.get('cases', 0)))
+        st['evaluations'] = str(int(st.get('evaluations', 0)) + int(cst.get('evaluations', 0)))
     stats[f'sim:{name}'] = st
     for f in st['oracle_fail']:
         m = re.match(r'key=(\S+)', f)
